@@ -24,6 +24,10 @@ pub struct Scn {
     pub epoch_ns: u64,
     pub res: String,
     pub flow: Option<FlowSpec>,
+    /// optional second throttling rule on the same resource (observed through build() only): the
+    /// caller must be held for every rule's schedule, in whatever order the rules are consulted
+    #[serde(default)]
+    pub flow2: Option<FlowSpec>,
     pub hot: Option<HotspotSpec>,
     /// observe through Controller::perform_checking (no sleep) instead of EntryBuilder::build()
     pub direct: bool,
@@ -95,7 +99,18 @@ impl Prop for C07 {
             let sp = if q > 0 { d * 1000 * MS / q } else { MS };
             (None, Some(h), sp.max(MS))
         };
-        let direct = rng.chance(1, 2);
+        let mut direct = rng.chance(1, 2);
+        let mut flow2 = None;
+        if let Some(f) = &flowspec {
+            if f.threshold > 0.0 && rng.chance(1, 4) {
+                let thr2 = *rng.pick(&[1.0f64, 2.0, 4.0, 10.0, 50.0]);
+                let iv2 = *rng.pick(&[0u32, 1000, 500, 2000]);
+                if thr2 != f.threshold || iv2 != f.interval_ms {
+                    flow2 = Some(FlowSpec { ctrl: 1, max_queue_ms: *rng.pick(&[0u32, 50, 500, 2000]), ..FlowSpec::reject("thr2", &res, thr2, iv2) });
+                    direct = false;
+                }
+            }
+        }
         let nops = rng.range(20, 80);
         let maxbatch = *rng.pick(&[1u64, 1, 1, 2, 3]);
         let nvals = if is_flow { 1 } else { rng.range(1, 3) };
@@ -129,7 +144,7 @@ impl Prop for C07 {
                 ops.push(Op::Adv { ns: ns - ns % unit });
             }
         }
-        serde_json::to_value(Scn { epoch_ns, res, flow: flowspec, hot, direct, ops }).unwrap()
+        serde_json::to_value(Scn { epoch_ns, res, flow: flowspec, flow2, hot, direct, ops }).unwrap()
     }
 
     fn execute(&self, scenario: &Value, cov: &mut Cov) -> RunResult {
@@ -170,7 +185,121 @@ enum Obs {
     Blocked(String),
 }
 
+/// two throttling rules on one resource, observed through build(): reference schedule per rule,
+/// rules consulted in the live controller order, waits add up
+fn run_multi(sc: &Scn, w: &mut World, tr: &mut Trace, cov: &mut Cov) -> Option<Violation> {
+    let specs: Vec<FlowSpec> = vec![sc.flow.clone().unwrap(), sc.flow2.clone().unwrap()];
+    flow::load_rules(specs.iter().map(|f| f.rule()).collect());
+    let live = flow::get_traffic_controller_list_for(&sc.res);
+    if live.len() != specs.len() {
+        return Some(Violation::new("C07/load/no-controller", 0, format!("{} rules, {} controllers", specs.len(), live.len())));
+    }
+    let order: Vec<usize> = live.iter().map(|tc| specs.iter().position(|s| s.id == tc.rule().id).expect("controller of unknown rule")).collect();
+    if order[0] == 1 {
+        cov.hit("second_rule_consulted_first");
+    }
+    let tick: i128 = 2;
+    let mut s_prev: Vec<Option<i128>> = vec![None; specs.len()];
+    let (mut n_wait, mut n_block, mut n_both_wait) = (0u64, 0u64, 0u64);
+    for (i, op) in sc.ops.iter().enumerate() {
+        match op {
+            Op::Adv { ns } => {
+                w.advance(*ns);
+                tr.word(*ns);
+            }
+            Op::Req { n, .. } => {
+                let a = w.now_ns() as i128;
+                let o = w.enter(&sc.res, *n, false, None, None);
+                if o.admitted {
+                    w.exit_nth(w.open.len() - 1, false);
+                }
+                let t1 = o.t1_ns as i128;
+                tr.word(o.admitted as u64);
+                tr.word((t1 - a) as u64);
+                // which rule rejected (if any)
+                let blocker: Option<usize> = if o.admitted {
+                    None
+                } else {
+                    let b = o.block.as_ref().unwrap();
+                    match b.rule_id.as_ref().and_then(|id| specs.iter().position(|s| &s.id == id)) {
+                        Some(x) => Some(x),
+                        // "batch > threshold" rejections carry no rule: the first rule in order for which it holds
+                        None => order.iter().cloned().find(|ri| *n as f64 > specs[*ri].threshold),
+                    }
+                };
+                if !o.admitted && blocker.is_none() {
+                    return Some(Violation::new("C07/flow/rejected-by-no-rule", i, o.block.map(|b| b.text).unwrap_or_default()));
+                }
+                let mut t = a;
+                let mut waits = 0;
+                for ri in order.iter() {
+                    let f = &specs[*ri];
+                    let interval_ns = if f.interval_ms == 0 { 1000.0 } else { f.interval_ms as f64 } * 1e6;
+                    let maxq = f.max_queue_ms as i128 * 1_000_000;
+                    let always_rejected = f.threshold <= 0.0 || *n as f64 > f.threshold;
+                    let spacing = if f.threshold > 0.0 { (*n as f64 * interval_ns / f.threshold) as i128 } else { 0 };
+                    let need = s_prev[*ri].map(|s| s + spacing - t).unwrap_or(i128::MIN / 4);
+                    if Some(*ri) == blocker {
+                        if !always_rejected && need < maxq - tick {
+                            return Some(Violation::new(
+                                "C07/flow/rejected-though-wait-within-max-queueing-time/two-rules",
+                                i,
+                                format!("rule {} consulted at {}: needed wait {} ns <= max queueing {} ns but it rejected the request", f.id, t, need.max(0), maxq),
+                            ));
+                        }
+                        break;
+                    }
+                    // this rule admitted the request
+                    if always_rejected {
+                        return Some(Violation::new("C07/flow/admitted-though-always-rejected", i, format!("rule {} rate {} batch {}", f.id, f.threshold, n)));
+                    }
+                    if need > maxq + tick {
+                        return Some(Violation::new(
+                            "C07/flow/queued-beyond-max-queueing-time/two-rules",
+                            i,
+                            format!("rule {} consulted at {}: needed wait {} ns > max queueing {} ns but the request was not rejected by it", f.id, t, need, maxq),
+                        ));
+                    }
+                    let wt = need.max(0);
+                    if wt > 0 {
+                        waits += 1;
+                    }
+                    s_prev[*ri] = Some(t + wt);
+                    t += wt;
+                }
+                if o.admitted {
+                    // really delayed: the clock must have reached the scheduled time of every rule
+                    if t1 < t - tick * 2 {
+                        return Some(Violation::new(
+                            "C07/flow/released-before-scheduled-time/two-rules",
+                            i,
+                            format!("arrival {}: the rules' schedules (consulted in order {:?}) require the caller to be held until {} (+{} ns) but build() returned at {} (+{} ns)", a, order, t, t - a, t1, t1 - a),
+                        ));
+                    }
+                    if waits > 0 {
+                        n_wait += 1;
+                    }
+                    if waits > 1 {
+                        n_both_wait += 1;
+                    }
+                } else {
+                    n_block += 1;
+                }
+            }
+        }
+        tr.word(w.now_ns());
+    }
+    cov.add("two_rule_requests_queued", n_wait);
+    cov.add("two_rule_requests_waiting_for_both_rules", n_both_wait);
+    cov.add("rejected", n_block);
+    cov.nontrivial = n_wait > 0 && n_block > 0;
+    None
+}
+
 fn run(sc: &Scn, w: &mut World, tr: &mut Trace, cov: &mut Cov) -> Option<Violation> {
+    if sc.flow.is_some() && sc.flow2.is_some() {
+        return run_multi(sc, w, tr, cov);
+    }
     let is_flow = sc.flow.is_some();
     let fam = if is_flow { "flow" } else { "hotspot" };
     let mut flow_tc = None;
